@@ -145,6 +145,10 @@ ResolvableStrOrList = InstanceOrListOf[ResolvableStr]
 ResolvableArnOrList = InstanceOrListOf[ResolvableArn]
 ResolvableIntOrList = InstanceOrListOf[ResolvableInt]
 ResolvableIPOrList = InstanceOrListOf[ResolvableIPNetwork]
+# Networks are tried before plain strings, whatever their IP version
+ResolvableIPOrStrOrList = Annotated[
+    Union[ResolvableIPOrList, InstanceOrListOf[Resolvable[str]]], Field(union_mode="left_to_right")
+]
 ResolvableBoolOrList = InstanceOrListOf[ResolvableBool]
 ResolvableBytesOrList = InstanceOrListOf[Binary]
 ResolvableDateOrList = InstanceOrListOf[ResolvableDate]
